@@ -337,11 +337,20 @@ def _num(s):
     return int(s)
 
 
-def _sgr(state, params):
-    """ECMA-48 8.3.117 (SGR) with ITU T.416 colon sub-parameters; None = not in the supported subset"""
+def _sgr(state, params, lenient):
+    """ECMA-48 8.3.117 (SGR) with ITU T.416 colon sub-parameters; None = not in the supported subset.
+    lenient (used by the oracle, not by the `term` cross-check of the Lean terminal): also the widespread
+    legacy form 38;5;n / 48;5;n, so that a code change to that form would not be reported as a violation"""
     fg, bg, fl = state
-    for p in params.split(";"):
+    plist = params.split(";")
+    k = 0
+    while k < len(plist):
+        p = plist[k]
+        k += 1
         sub = p.split(":")
+        if lenient and p in ("38", "48") and k + 1 < len(plist) and plist[k] == "5":
+            sub = [p, "5", plist[k + 1]]
+            k += 2
         if len(sub) == 1:
             n = 0 if p == "" else _num(p)
             if n is None:
@@ -375,7 +384,7 @@ def _sgr(state, params):
     return fg, bg, fl
 
 
-def terminal(s, state=DEFAULT):
+def terminal(s, state=DEFAULT, lenient=False):
     """what a terminal shows: ([(char, state)], final state) or None when `s` contains anything but
     printable text and complete SGR sequences of the supported subset"""
     cells, i = [], 0
@@ -391,7 +400,7 @@ def terminal(s, state=DEFAULT):
             j += 1
         if j >= len(s) or s[j] != "m":
             return None
-        state = _sgr(state, s[i + 2:j])
+        state = _sgr(state, s[i + 2:j], lenient)
         if state is None:
             return None
         i = j + 1
@@ -455,7 +464,7 @@ def wanted(toks):
 
 def _check_shown(s, expect, what):
     """expect: list of (text, state)"""
-    res = terminal(s)
+    res = terminal(s, lenient=True)
     if res is None:
         return "malformed: %s: %r is not text + complete SGR sequences" % (what, s)
     cells, fin = res
@@ -738,8 +747,7 @@ def gen_cases(rng, tier):
         allc = [None] + STD_NAMES + list(range(256)) + cube + ["g%d" % i for i in range(24)]
         for a in allc:
             for b in allc:
-                if rng.random() < 0.25:
-                    yield _case("fmt %s %s" % (spec_tokens(a, b, rand_eff(rng)), enc_str(rand_text(rng, 3))), "fmt-pairs")
+                yield _case("fmt %s %s" % (spec_tokens(a, b, rand_eff(rng)), enc_str(rand_text(rng, 3))), "fmt-pairs")
     for _ in range(40 if not thorough else 2000):
         yield _case("pfmt " + enc_str(rand_text(rng)), "pfmt")
     # --- CHText of several parts
